@@ -131,7 +131,7 @@ pub fn check(p: &Prog, rep: &mut Report) {
         let text = match generate(&p.src, &cfg) {
             Outcome::Ok(t) => t,
             other => {
-                rep.filtered(&format!("generator not Ok: {}", other.class()));
+                rep.generation_failed(format!("{}|{}", p.key, cfg.key()), &other.class(), &p.src, &cfg);
                 continue;
             }
         };
@@ -219,6 +219,65 @@ pub fn space(thorough: bool) -> Vec<Prog> {
     for es in &entry_sets {
         for g in [0, 1, 2] {
             out.push(build(&env, None, es, &[], false, g, format!("none|entries={es:?}|groups={g}")));
+        }
+    }
+    // helpers layered over the one function that reads the variable, called by each entry point in every order:
+    // C reads it, F calls C, G calls F; H reads nothing, W calls H. Per entry an ordered list of up to two of
+    // {direct read, C, F, G, H, W}: a stage uses the variable iff its list has anything but H / W
+    {
+        let items = ["direct", "C", "F", "G", "H", "W"];
+        let mut lists: Vec<Vec<usize>> = vec![vec![]];
+        for a in 0..items.len() {
+            lists.push(vec![a]);
+            for b in 0..items.len() {
+                if a != b {
+                    lists.push(vec![a, b]);
+                }
+            }
+        }
+        let helpers = "var<push_constant> pc: vec4<f32>;\nfn layer_c() -> f32 {\n    return pc.x;\n}\nfn layer_f() -> f32 {\n    return layer_c() + 1.0;\n}\nfn layer_g() -> f32 {\n    return layer_f() * 2.0;\n}\nfn other_h() -> f32 {\n    return 3.0;\n}\nfn other_w() -> f32 {\n    return other_h() + 1.0;\n}\n";
+        let call = |i: usize| match items[i] {
+            "direct" => "pc.y",
+            "C" => "layer_c()",
+            "F" => "layer_f()",
+            "G" => "layer_g()",
+            "H" => "other_h()",
+            _ => "other_w()",
+        };
+        let reaches = |l: &Vec<usize>| l.iter().any(|i| *i < 4);
+        let body = |l: &Vec<usize>| l.iter().map(|i| format!("    acc += {};\n", call(*i))).collect::<String>();
+        let mut idx = 0usize;
+        for (vi, lv) in lists.iter().enumerate() {
+            for (fi, lf) in lists.iter().enumerate() {
+                for (ci, lc) in lists.iter().enumerate() {
+                    // quick: all (vertex, fragment) pairs with the compute entry absent, and an evenly spread 1/23 of the triples
+                    let with_c = ci != 0;
+                    idx += 1;
+                    if with_c && !(thorough && idx % 3 == 0 || idx % 23 == 0) {
+                        continue;
+                    }
+                    let mut src = String::from(helpers);
+                    src.push_str(&format!("@vertex fn vs_main() -> @builtin(position) vec4<f32> {{\n    var acc = 0.0;\n{}    return vec4<f32>(acc);\n}}\n", body(lv)));
+                    src.push_str(&format!("@fragment fn fs_main() -> @location(0) vec4<f32> {{\n    var acc = 0.0;\n{}    return vec4<f32>(acc);\n}}\n", body(lf)));
+                    let mut st = ShaderStages::NONE;
+                    if reaches(lv) {
+                        st |= ShaderStages::VERTEX;
+                    }
+                    if reaches(lf) {
+                        st |= ShaderStages::FRAGMENT;
+                    }
+                    if with_c {
+                        src.push_str(&format!("@compute @workgroup_size(1) fn cs_main() {{\n    var acc = 0.0;\n{}}}\n", body(lc)));
+                        if reaches(lc) {
+                            st |= ShaderStages::COMPUTE;
+                        }
+                    }
+                    if st == ShaderStages::NONE {
+                        st = ShaderStages::VERTEX | ShaderStages::FRAGMENT | if with_c { ShaderStages::COMPUTE } else { ShaderStages::NONE };
+                    }
+                    out.push(Prog { key: format!("layers|v={vi}|f={fi}|c={ci}"), src, expect: Some((16, st)), groups: 0 });
+                }
+            }
         }
     }
     // one stage reaches the variable only through a helper called at each placement context in each call form
